@@ -19,3 +19,22 @@ Lemma tie_mattermost_default : Mattermost.Version.qualifier_precedence $"no-such
 Proof. vm_compute. reflexivity. Qed.
 Lemma tie_pypi_default : Pypi.Version.pre_type $"no-such-marker" = Tables.pypi_normalizePrereleaseType_default.
 Proof. vm_compute. reflexivity. Qed.
+
+(* composer: the five named stability levels are taken from Gen/Tables.v by the model itself
+   (Eval cbv delta), so these ties hold by construction; kept as a guard against a model that
+   goes back to writing the numbers. *)
+Lemma tie_composer_stabilityDev : Composer.Version.stabilityDev = Tables.composer_stabilityDev.
+Proof. reflexivity. Qed.
+Lemma tie_composer_stabilityAlpha : Composer.Version.stabilityAlpha = Tables.composer_stabilityAlpha.
+Proof. reflexivity. Qed.
+Lemma tie_composer_stabilityBeta : Composer.Version.stabilityBeta = Tables.composer_stabilityBeta.
+Proof. reflexivity. Qed.
+Lemma tie_composer_stabilityRC : Composer.Version.stabilityRC = Tables.composer_stabilityRC.
+Proof. reflexivity. Qed.
+Lemma tie_composer_stabilityStable : Composer.Version.stabilityStable = Tables.composer_stabilityStable.
+Proof. reflexivity. Qed.
+Lemma tie_composer_stabilityMap : Composer.Version.stabilityMap = Tables.composer_stabilityMap.
+Proof. reflexivity. Qed.
+(* a dev branch carries stabilityDev (version.go: v.stability = stabilityDev) *)
+Lemma tie_composer_dev_branch b : Composer.Version.c_stab (Composer.Version.CDev b) = Tables.composer_stabilityDev.
+Proof. reflexivity. Qed.
